@@ -8,7 +8,8 @@ ID = 'C18'
 LEVEL = 'exploration'
 SALTS = 1
 NEEDS_LOGICS = False
-RULE = ('each run = one seeded history of <=40 operations (append/add/insert/wedge/remove/discard/pop/'
+RULE = ('each run = its slice of the exhaustive enumeration of all operation histories of depth 3 (thorough: 4) over a 46-operation alphabet '
+        '(50 for linqset; values 0-2, for Predicates incl. an arity-conflict pair) on each container, plus one seeded history of <=40 operations (append/add/insert/wedge/remove/discard/pop/'
         'del+assign by index and slice/sort/reverse/clear/copy/set algebra) over a 6-value universe on '
         'qset, linqset or Predicates, with veto faults toggled at seeded positions; judged after every '
         'operation against a list-without-duplicates model. distinct_nontrivial = distinct '
@@ -23,6 +24,43 @@ COMPONENTS = dict(real='pytableaux.tools.hybrids.qset, pytableaux.tools.linked.l
 
 def plan(tier):
     return dict(runs=24000 if tier == 'quick' else 2400000, timeout=240 if tier == 'quick' else 5400)
+
+# -- exhaustive part: every history over a small operation alphabet up to a depth bound
+
+def _alphabet(kind):
+    N = None
+    a = [['append', v] for v in (0, 1, 2)] + [['add', v] for v in (0, 1)]
+    a += [['insert', i, v] for i in (0, 1, -1) for v in (0, 2)]
+    a += [['setitem', i, v] for i in (0, -1) for v in (0, 1, 2)]
+    a += [['delitem', i] for i in (0, -1, 1)] + [['pop', i] for i in (-1, 0)]
+    a += [['remove', v] for v in (0, 1)] + [['discard', v] for v in (0, 2)]
+    a += [['reverse'], ['clear'], ['sort', False], ['sort', True], ['copy']]
+    a += [['extend', [1, 0]], ['extend', [2, 2]], ['ior', [0, 1]], ['iand', [0, 1]], ['isub', [0]], ['ixor', [0, 1]]]
+    a += [['setslice', [N, N, N], [2, 1]], ['setslice', [1, N, N], [0]], ['setslice', [N, N, 2], [2]],
+          ['setslice', [N, N, -1], [1, 0]], ['setslice', [0, 1, N], []]]
+    a += [['delslice', [N, N, 2]], ['delslice', [1, N, N]], ['self_ixor'], ['getslice', [N, N, -1]]]
+    if kind == 'linqset':
+        a += [['wedge', 0, 1, 1], ['wedge', 1, 0, -1], ['wedge', 2, 0, 1], ['wedge', 0, 0, 1]]
+    return a
+ALPHABETS = {k: _alphabet(k) for k in contsim.KINDS}
+
+def enum_depth(tier):
+    return 3 if tier == 'quick' else 4
+
+def enum_total(depth):
+    return sum(len(ALPHABETS[k]) ** depth for k in contsim.KINDS)
+
+def enum_spec(code, depth):
+    for k in contsim.KINDS:
+        n = len(ALPHABETS[k]) ** depth
+        if code < n:
+            ops = []
+            for _ in range(depth):
+                code, d = divmod(code, len(ALPHABETS[k]))
+                ops.append([list(x) if isinstance(x, list) else x for x in ALPHABETS[k][d]])
+            return dict(kind=k, ops=ops)
+        code -= n
+    return None
 
 def make_spec(ctx):
     rng = ctx.rng('workload')
@@ -58,6 +96,15 @@ def judge(ctx, spec, record=True):
     return None
 
 def run(ctx):
+    depth = enum_depth(ctx.tier)
+    total = enum_total(depth)
+    per = -(-total // plan(ctx.tier)['runs'])
+    for code in range(ctx.index * per, min(total, (ctx.index + 1) * per)):
+        spec = enum_spec(code, depth)
+        ctx.count('enumerated_histories')
+        if contsim.execute(spec) is not None:
+            judge(ctx, spec, record=False)
+            return
     judge(ctx, make_spec(ctx))
 
 def replay(ctx, spec):
